@@ -11,7 +11,8 @@ Obligations
   C-list     real SuppressionList::addSuppression/isSuppressed/isSuppressedExplicitly sequences == model (results + flags)
   C-parse    parseLine / toString / strToInt<int> / parseComment / parseMultiSuppressComment / parseFile / parseXmlFile == model
   C-gate     real CppCheck::CppCheckLogger::reportErr (driven in-process through CppCheck + a scripted addon callback) == model gate
-  CLI        (thorough) generated sources/headers with inline suppressions and planted findings through the cppcheck binary
+  CLI        generated sources/headers with inline suppressions and planted findings through the cppcheck binary, incl. -rp / -j2
+             (quick: 6 + 3 projects, thorough: 60 + 13)
 P_impl       a finding is reported by the real code iff no active suppression matches it by the documented rules
              (glob: real matchglob(p, n) == documented language; round trip: parseLine(toString s) == s for printable s)
 """
@@ -36,7 +37,10 @@ EXPLANATION = ("Lean: matchglob's explicit-stack machine terminates and equals t
 THEOREMS = [
     "Cppcheck.Glob.stack_eq_dfs", "Cppcheck.Glob.glob_eq_spec", "Cppcheck.Glob.glob_eq_spec_fixed", "Cppcheck.Glob.glob_sound_pre",
     "Cppcheck.Glob.glob_eq_spec_partial", "Cppcheck.Glob.glob_starstar_counterexample",
-    "Cppcheck.Suppress.isSuppressed_matched_iff_spec", "Cppcheck.Suppress.supprExact_eq",
+    "Cppcheck.Suppress.isSuppressed_matched_iff_spec", "Cppcheck.Suppress.isSuppressed_matched_iff_documented",
+    "Cppcheck.Suppress.active_eq_considered", "Cppcheck.Suppress.supprExact_eq",
+    "Cppcheck.Suppress.reported_parallel_iff", "Cppcheck.Suppress.reported_parallel_eq_single",
+    "Cppcheck.Suppress.parallel_safety_counterexample",
     "Cppcheck.Suppress.isSuppressed_starstar_regression",
     "Cppcheck.Suppress.listIsSuppressed_iff", "Cppcheck.Suppress.reported_iff_unsuppressed_gen",
     "Cppcheck.Suppress.reported_iff_unsuppressed", "Cppcheck.Suppress.reported_iff_unsuppressed_nosafety",
@@ -497,7 +501,7 @@ def gate_dop(g, hline):
 def gate_impl_canon(hline, kept):
     """renumber the finding indices of the harness output to the kept (non-skipped) findings"""
     h = head(hline)
-    m = re.match(r"^A (\S+) O (\S+) X (\d+) N (\S+) M (\S+)$", h)
+    m = re.match(r"^A (\S+) O (\S+) X (\d+) N (\S+) M (\S+) E (\S+) N2 (\S+)$", h)
     if not m:
         return h
     outs = m.group(2)
@@ -508,7 +512,7 @@ def gate_impl_canon(hline, kept):
             i = int(i)
             ren.append("%d:%s:%s" % (kept.index(i) if i in kept else -1, a, r))
         outs = ",".join(ren)
-    return "A %s O %s X %s N %s M %s" % (m.group(1), outs, m.group(3), m.group(4), m.group(5))
+    return "A %s O %s X %s N %s M %s E %s N2 %s" % (m.group(1), outs, m.group(3), m.group(4), m.group(5), m.group(6), m.group(7))
 
 
 # ---------------------------------------------------------------------------------------------------------------
@@ -549,7 +553,7 @@ def run_all(ctx, res):
     t0 = time.time()
     core.prove(ctx, res, MODULES, THEOREMS)
     drv = ctx.driver("drv_c23")
-    exe = ctx.harness("c23")
+    exe = ctx.harness("c23", with_cli=True)
     if os.environ.get("C23_CPPCHECK"):
         res.oblig("machinery:cppcheck-override", False, "machinery", "C23_CPPCHECK is set: this run does not judge the working tree")
     if os.environ.get("C23_HARNESS"):
@@ -720,6 +724,41 @@ def run_all(ctx, res):
     for hi in himpl:
         res.count("parseXml:" + hi.split()[0])
 
+    # ---- whole files written from suppressions (theorems parseFile_print / parseXml_print) ---------------------------
+    def gen_printed(n):
+        out = []
+        for _ in range(n):
+            e, f, ln, sy, po = gen_printable(rng)
+            if rng.random() < 0.7:
+                e = rng.choice(["memleak", "null*", "uninitvar", "a-b", "*", "misra-c2012-10.4"])
+            if rng.random() < 0.7:
+                sy = ""
+            if not f:
+                ln = -1
+            out.append((e, f, ln, sy))
+            if out and rng.random() < 0.1:
+                out.append(out[-1])          # duplicate: rejected as "already exists"
+        return out
+    for opname, thm in (("pfp", "parseFile_print"), ("pxp", "parseXml_print")):
+        sets = [gen_printed(rng.choice([1, 2, 3, 4])) for _ in range(1200 if thorough else 300)]
+        ops = ["%s %d %s" % (opname, len(ss), " ".join("%s %s %d %s" % (hx(e), hx(f), ln, hx(sy)) for e, f, ln, sy in ss)) for ss in sets]
+        himpl, hmodel = run_pair(ctx, exe, drv, ops, lambda o, h: o + tables_of(h), opname, res)
+        nh = 0
+        for ss, hi, mo in zip(sets, himpl, hmodel):
+            t = tail_fields(mo)
+            if t.get("same") != "1":
+                res.oblig("model-selfcheck:%s" % thm, False, "correspondence", "the model parser and the theorem's right-hand side differ on %s" % (ss,))
+                break
+            if t.get("hyp") == "1":
+                nh += 1
+                res.case("%s|%s" % (opname, ss), len(ss) > 1, dict(tie=thm, suppressions=str(ss), impl=head(hi)) if nh % 97 == 1 else None)
+                if head(hi) != head(mo):
+                    res.violation("%s: the file written from %s is read back as [%s], the suppressions themselves give [%s]" % (thm, ss, head(hi), head(mo)),
+                                  dict(kind=opname, supprs=[list(x) for x in ss], real=head(hi), documented=head(mo)), concrete=True, key=None)
+        res.count("%s:hypothesis-holds" % thm, nh)
+        res.count("%s:outside-hypothesis" % thm, len(sets) - nh)
+        res.traces_validated += nh
+
     # ---- C-gate -------------------------------------------------------------------------------------------------
     gs = [c["gate"] for c in corpus.get("gate", [])] + [gen_gate(rng) for _ in range(1500 if thorough else 350)]
     run_gates(ctx, res, exe, drv, gs, "CppCheckLogger::reportErr")
@@ -753,7 +792,7 @@ def run_gates(ctx, res, exe, drv, gs, name):
     nviol = 0
     for g, h, mo, kept, im in zip(gs, hout, mout, kepts, impl):
         t = tail_fields(mo)
-        m = re.match(r"^A (\S+) O (\S+) X (\d+) N (\S+) M (\S+)$", im)
+        m = re.match(r"^A (\S+) O (\S+) X (\d+) N (\S+) M (\S+) E (\S+) N2 (\S+)$", im)
         if not m or "unsup" not in t:
             continue
         adds = m.group(1).split(",") if m.group(1) != "_" else []
@@ -803,6 +842,37 @@ def run_gates(ctx, res, exe, drv, gs, name):
                               dict(kind="gate", gate=g, index=j, real_reported=(j in reported), documented=want), concrete=True, key=key)
             if internal != "1" and librep == "1" and text != "-":
                 seen[use_sup].add(text)
+        # P_impl for the parallel composition (worker logger without global suppressions, then Executor::hasToLog):
+        # what survives both gates = internal messages + reportable findings that NO entry of the whole list matches
+        # (safety mode excluded: C15's known finding safety-global-suppressed-critical; macro entries must be file-bound)
+        if not g["cfg"]["ug"] and not g["cfg"]["safety"] and all(s["type"] != 5 or (s["file"] and "*" not in s["file"] and "?" not in s["file"]) for s in added):
+            ebits = m.group(6) if m.group(6) != "_" else ""
+            outs_l = m.group(2).split(",") if m.group(2) != "_" else []
+            survived = set()
+            for o, eb in zip(outs_l, ebits):
+                i, a, r = o.split(":")
+                if a == "0" and eb == "1":
+                    survived.add(int(i))
+            seen_par = set()
+            res.count("gate:parallel-composition-judged")
+            for j, d in enumerate(dk):
+                skip, internal, librep, crit, text, fid, syms, gfile = d
+                lat = j < len(later) and later[j] == "1"
+                if internal == "1":
+                    wantp = True
+                elif librep != "1" or text == "-" or lat:
+                    wantp = False
+                else:
+                    wantp = g["cfg"]["dup"] or text not in seen_par
+                    seen_par.add(text)
+                mk = lambda x: (tuple(dk[x]), g["fs"][kept[x]]["hasloc"], g["fs"][kept[x]]["line"], g["fs"][kept[x]]["hash"])
+                first = [x for x in range(len(dk)) if mk(x) == mk(j)][0]
+                if first == j and (j in survived) != wantp:
+                    nviol += 1
+                    res.violation("parallel run (logger without global suppressions + Executor::hasToLog): finding #%d %s %s although %s (nomsg %s)" %
+                                  (j, g["fs"][kept[j]], "survives both gates" if j in survived else "is dropped",
+                                   "an entry of the suppression list matches it" if not wantp else "no entry of the suppression list matches it", added),
+                                  dict(kind="gate", gate=g, index=j, real_reported=(j in survived), documented=wantp, stage="parallel"), concrete=True, key=None)
     return nviol
 
 
@@ -824,7 +894,7 @@ def gen_cli_case(rng, k):
             L.append(s)
             return len(L)
         filesup = None
-        if rng.random() < 0.25:
+        if rng.random() < 0.25 or (k == 0 and not ishdr):     # case 0 always has a -file form (in the source) …
             # documented: "// cppcheck-suppress-file id" for the whole file; the implementation wants it at the top of the file
             filesup = rng.choice(["arrayIndexOutOfBounds", "zerodiv", "*", "array*", "[arrayIndexOutOfBounds,zerodiv]", "nullPointer"])
             add("// cppcheck-suppress-file " + filesup)
@@ -835,8 +905,8 @@ def gen_cli_case(rng, k):
             add('#include "t%d.h"' % k)
         macro = None
         msup = None
-        if rng.random() < 0.4:
-            msup = rng.choice(["arrayIndexOutOfBounds", "zerodiv", None])
+        if rng.random() < 0.4 or k == 0:                            # … and a -macro form in both files
+            msup = rng.choice(["arrayIndexOutOfBounds", "zerodiv", None]) if k else "arrayIndexOutOfBounds"
             if msup:
                 add("// cppcheck-suppress-macro " + msup)
             macro = "BAD%s%d" % ("H" if ishdr else "C", k)
@@ -850,6 +920,8 @@ def gen_cli_case(rng, k):
                 mode = rng.choice(["none", "none", "same", "prev", "prev-gap", "prev-other", "wrongid", "after", "block", "block-outside", "multi",
                                    "sym-ok", "sym-bad", "sym-glob", "glob", "starstar", "brace"])
                 kind = rng.choice(["aiob", "aiob", "zerodiv", "macro" if macro else "aiob", "nullp"])
+                if k == 0 and fi == 0 and _ == 0 and macro:
+                    kind, mode = "macro", "none"          # a finding inside the macro, hidden only by the -macro comment
                 if mode.startswith("sym"):
                     kind = "nullp"
                 fid = {"aiob": "arrayIndexOutOfBounds", "macro": "arrayIndexOutOfBounds", "zerodiv": "zerodiv", "nullp": "nullPointer"}[kind]
@@ -895,7 +967,8 @@ def gen_cli_case(rng, k):
                     pats = [x.strip() for x in filesup.strip("[]").split(",")]
                     fsup = any(re.fullmatch(p.replace("*", ".*"), fid) for p in pats)
                 msupd = (kind == "macro" and msup == fid)
-                plan.append(dict(file=fname, line=ln, id=fid, macro=(macro if kind == "macro" else None), suppressed=(sup or fsup or msupd), why=mode))
+                plan.append(dict(file=fname, line=ln, id=fid, macro=(macro if kind == "macro" else None), suppressed=(sup or fsup or msupd),
+                                 why=("macro" if msupd and not sup and not fsup else "file" if fsup and not sup else mode)))
             add("    (void)a; (void)x;")
             add("}")
         if ishdr:
@@ -1112,7 +1185,7 @@ def search(ctx, res, exe, drv):
 
 def replay(ctx, res, rp):
     drv = ctx.driver("drv_c23")
-    exe = ctx.harness("c23")
+    exe = ctx.harness("c23", with_cli=True)
     kind = rp.get("kind")
     bad = 0
     if kind == "glob":
@@ -1156,6 +1229,12 @@ def replay(ctx, res, rp):
         for v in res2.violations:
             print(v["what"][:500])
         bad = 1 if res2.violations else 0
+    elif kind in ("pfp", "pxp"):
+        ss = rp["supprs"]
+        ops = ["%s %d %s" % (kind, len(ss), " ".join("%s %s %d %s" % (hx(e), hx(f), ln, hx(sy)) for e, f, ln, sy in ss))]
+        hi, mo = run_pair(ctx, exe, drv, ops, lambda o, h: o + tables_of(h), "replay", res)
+        print("real : %s\nspec : %s" % (hi[0], mo[0]))
+        bad = 1 if tail_fields(mo[0]).get("hyp") == "1" and head(hi[0]) != head(mo[0]) else 0
     elif kind == "cli-rp":
         res2 = core.Result(ctx, res.level)
         cli_rp_cases(ctx, res2, dict(cli_rp=[dict(rp=rp["rp"])]), True, generate=False)
